@@ -918,9 +918,14 @@ pub fn get_value(
         #[cfg(target_os = "linux")]
         Some(Function::HasCapability) => {
             if let Some(entry) = entry {
-                if let Ok(Some(caps_xattr)) = xattr::get(entry.path(), "security.capability") {
-                    let caps_string = crate::util::capabilities::parse_capabilities(caps_xattr);
-                    return Variant::from_bool(caps_string.contains(&function_arg));
+                match xattr::get(entry.path(), "security.capability") {
+                    Ok(Some(caps_xattr)) => {
+                        let caps_string = crate::util::capabilities::parse_capabilities(caps_xattr);
+                        return Variant::from_bool(caps_string.contains(&function_arg));
+                    }
+                    // a file without capabilities does not have this one
+                    Ok(None) => return Variant::from_bool(false),
+                    _ => {}
                 }
             }
 
